@@ -108,7 +108,7 @@ macro_rules! combo {
     let (q, w) = (<$combo as Combo>::QNAME, <$combo as Combo>::W);
     let max_depth = <QQ as MocQty<T>>::MAX_DEPTH;
     let ub = n_cells_max::<T, QQ>();
-    let n = if $thorough { 400 } else { 60 };
+    let n = if $thorough { 2500 } else { 60 };
     for k in 0..n {
       // shapes: empty, full, deepest level unoccupied, random shallow / deep
       let (d, l): (u8, Vec<Range<u64>>) = match k % 8 {
@@ -376,7 +376,7 @@ fn all(sink: &mut Sink, rng: &mut Rng, thorough: bool, mutate: bool) {
 pub fn run(sink: &mut Sink, rng: &mut Rng, thorough: bool) {
   all(sink, rng, thorough, false);
   // NUNIQ encoding (space only)
-  for k in 0..(if thorough { 600 } else { 100 }) {
+  for k in 0..(if thorough { 5000 } else { 100 }) {
     let d = if k % 3 == 0 { rng.below(30) as u8 } else { rng.below(5) as u8 };
     let l = if k % 10 == 0 { vec![] } else { random_moc_ranges::<u64, Hpx<u64>>(rng, d, 6) };
     let m: RangeMOC<u64, Hpx<u64>> = mk_moc(d, &l);
@@ -404,7 +404,7 @@ pub fn run_c12(sink: &mut Sink, rng: &mut Rng, thorough: bool) {
   all(sink, rng, thorough, true);
   other_readers(sink, rng, thorough);
   // random bytes
-  for _ in 0..(if thorough { 3000 } else { 500 }) {
+  for _ in 0..(if thorough { 20000 } else { 500 }) {
     let n = rng.below(40) as usize;
     let b: Vec<u8> = (0..n).map(|_| *rng.pick(b"0123456789/-+ \n,x{}[]\":")).collect();
     let s = String::from_utf8(b).unwrap();
@@ -564,7 +564,7 @@ pub fn other_readers(sink: &mut Sink, rng: &mut Rng, thorough: bool) {
   for (name, b) in &bases {
     drive_all_readers(sink, &format!("unmutated {}", name), b);
   }
-  let n = if thorough { 400 } else { 60 };
+  let n = if thorough { 2000 } else { 60 };
   for (name, base) in &bases {
     let per = if name == "skymap" { n / 6 } else { n };
     for _ in 0..per {
